@@ -1061,3 +1061,17 @@ package plenccodec
 //@   ensures[C14] result.Type == 6 && len(result.Elements) == len(c.fields)
 //@   # element k describes field k: same index, same name
 //@   ensures[C14] forall k int :: 0 <= k && k < len(c.fields) ==> result.Elements[k].Index == c.fields[k].index && result.Elements[k].Name == c.fields[k].name
+
+//@ # ---- building a struct codec (C08) ----------------------------------------------------
+//@ func plenccodec.BuildStructCodec
+//@   safety C08
+//@   assigns H
+//@   loop 1 invariant[C08] 0 <= count && count <= rangeindex + 1 && rangeindex + 1 <= rangelen && 0 <= maxIndex && rangelen == len(c.fields)
+//@   # every field recorded so far has an index between 0 and the maximum seen: the index table built below covers it
+//@   loop 1 invariant[C08] forall k int :: 0 <= k && k < count ==> 0 <= c.fields[k].index && c.fields[k].index <= maxIndex
+//@   loop 1 decreases rangelen - rangeindex
+//@   loop 2 invariant[C08] len(c.fieldsByIndex) == maxIndex + 1 && rangelen == len(c.fields)
+//@   loop 2 invariant[C08] forall k int :: 0 <= k && k < len(c.fields) ==> 0 <= c.fields[k].index && c.fields[k].index <= maxIndex
+//@   loop 2 decreases rangelen - rangeindex
+//@   ensures[C08] r1 == nil ==> r0 != nil
+//@   ensures[C08] r1 != nil ==> r0 == nil
